@@ -874,4 +874,65 @@ theorem c14_unit_property_references_order_free (cfg : RichCfg) (hr : cfg.uprpCf
     have hk := congrArg RCuwp.key this
     simpa [RCuwp.key] using hk
 
+/-! ### a new location the full table had no room for: the reference raises, it is never a wrong number -/
+
+/-- every uid of the uid ↦ slot list belongs to a placement element the allocator PLACED -/
+theorem placed_uid_mem (placement : List RLoc) (ress : List Res) (u : Nat)
+    (h : u ∈ ((placedOf placement ress).filterMap fun (l, uid) => l.idx.map fun i => (uid, i)).map (·.1)) :
+    ∃ (j : Nat) (hj : j < placement.length) (hj' : j < ress.length) (s : Nat),
+      ress[j] = .placed s ∧ placement[j].uid = u := by
+  induction placement generalizing ress with
+  | nil => simp [placedOf] at h
+  | cons l ls ih =>
+    cases ress with
+    | nil => simp [placedOf] at h
+    | cons r rs =>
+      cases r with
+      | placed s0 =>
+        simp only [placedOf, List.zip_cons_cons, List.filterMap_cons, Option.map_some, List.map_cons, List.mem_cons] at h
+        rcases h with h | h
+        · exact ⟨0, by simp, by simp, s0, by simp, by simp [h]⟩
+        · obtain ⟨j, hj, hj', s, hr, hu⟩ := ih rs (by simpa [placedOf] using h)
+          exact ⟨j + 1, by simpa using hj, by simpa using hj', s, by simpa using hr, by simpa using hu⟩
+      | skipped =>
+        simp only [placedOf, List.zip_cons_cons, List.filterMap_cons] at h
+        obtain ⟨j, hj, hj', s, hr, hu⟩ := ih rs (by simpa [placedOf] using h)
+        exact ⟨j + 1, by simpa using hj, by simpa using hj', s, by simpa using hr, by simpa using hu⟩
+
+theorem lookup_none_of_not_mem {β} (l : List (Nat × β)) (u : Nat) (h : u ∉ l.map (·.1)) : l.lookup u = none := by
+  induction l with
+  | nil => rfl
+  | cons p ps ih =>
+    obtain ⟨a, b⟩ := p
+    simp only [List.map_cons, List.mem_cons, not_or] at h
+    have hne : (u == a) = false := by simpa using h.1
+    simp only [List.lookup, hne]
+    exact ih h.2
+
+/-- **a new location the save could not place is never written as a number**: the location editor skips an
+index-less location when the table is full (`raiseWhenFull = false`); a trigger that refers to such a location
+then finds no number for it (`locId … = none`, the encoder's `KeyError`) — the save raises instead of emitting a
+reference to some other slot.  For every batch with pairwise different identities, every allocator outcome. -/
+theorem c11_unplaced_new_location_has_no_number (b : List RLoc) (ress : List Res)
+    (hu : ((placementOf b).map (·.uid)).Nodup)
+    (k : Nat) (hk : k < (placementOf b).length) (hk' : k < ress.length) (hs : ress[k] = .skipped)
+    (hnone : (placementOf b)[k].idx = none)
+    (ctx : EncCtx)
+    (hctx : ctx.locIds = (placedOf (placementOf b) ress).filterMap fun (l, uid) => l.idx.map fun i => (uid, i)) :
+    locId ctx (placementOf b)[k] = none := by
+  unfold locId
+  rw [hnone]
+  simp only
+  rw [hctx]
+  apply lookup_none_of_not_mem
+  intro hmem
+  obtain ⟨j, hj, hj', s, hr, hju⟩ := placed_uid_mem _ _ _ hmem
+  have hjk : j = k := by
+    have h1 : ((placementOf b).map (·.uid))[j]'(by simpa using hj) = ((placementOf b).map (·.uid))[k]'(by simpa using hk) := by
+      simpa using hju
+    exact (List.getElem_inj hu).mp h1
+  subst hjk
+  rw [hs] at hr
+  cases hr
+
 end Richchk.Props.C14
